@@ -1,5 +1,6 @@
 import Ebv.Lemmas.VerifRegs
 import Ebv.Lemmas.VerifStruct
+import Ebv.Lemmas.VerifStack
 import Ebv.Lemmas.VerifGen
 /-! # C05 — every program the generator accepts loads into the kernel  (PARTIAL)
 
@@ -11,6 +12,8 @@ about `MiniV.accepts` (`Ebv/Model/MiniVerifier.lean`), a model of the verifier r
 * `reg_init_sound`       — rule (1) against the ISA semantics `Ebv.Ebpf.step`: along every execution (helpers and map
   addresses arbitrary) from a state whose written set contains r1 and r10, every register an instruction reads has been
   written (r1–r5 are un-written by a call, r0 is written by it);
+* `stack_bounds_sound` (in `Ebv/Lemmas/VerifStack.lean`) — rule (2), bounds, against `Ebpf.step`: a register the table classifies
+  as frame pointer `fp o` holds `FP + o`, and every load/store through it stays inside `[FP-512, FP)`;
 * `exit_has_r0`, `accepted_pc_in_range` — corollaries: EXIT always finds a written r0; execution never leaves the
   program text;
 * `step_frame` (in `Ebv/Lemmas/VerifRegs.lean`) ties `MiniV.defs` to `Ebpf.step`: registers outside `defs i` keep their value.
@@ -42,10 +45,10 @@ theorem inv_step {cfg : Config} {geo : MapGeometry} {prog : List Insn} {t : Tabl
     rcases Nat.lt_or_ge c.σ.pc prog.length with h | h
     · exact h
     · rw [List.getElem?_eq_none_iff.mpr h] at hi; cases hi
-  obtain ⟨_, outs, _, hcov, houts⟩ := checkAt_spec (ht.at_pc _ hlt) hi hta
+  obtain ⟨_, _, outs, _, hcov, houts⟩ := checkAt_spec (ht.at_pc _ hlt) hi hta
   obtain ⟨hpc, hw'⟩ := istep_succ hi hs
   obtain ⟨o, ho, hoq⟩ := hcov _ hpc
-  obtain ⟨hdefs, b, htb, hleq⟩ := houts o ho
+  obtain ⟨hdefs, _, b, htb, hleq⟩ := houts o ho
   refine ⟨b, by rw [← hoq]; exact htb, ?_⟩
   intro r hr hb
   have ho2 := state_leq_init hleq hr hb
